@@ -24,83 +24,96 @@ func (c *Ctx) ruleHoldTimeMin() {
 	}
 	fk := ir.FuncKey(fn)
 	n := 0
-	for _, b := range fn.Blocks {
-		for _, in := range b.Instrs {
-			st, ok := in.(*ssa.Store)
-			if !ok {
-				continue
-			}
-			fa, ok := st.Addr.(*ssa.FieldAddr)
-			if !ok || ir.FieldOf(fa).Name() != "NegotiatedHoldTime" {
-				continue
-			}
-			n++
-			cons := fmt.Sprintf("store NegotiatedHoldTime #%d", n)
-			// the guarding branch
-			if len(b.Preds) != 1 {
-				r.Bad(rule, fk, cons, c.P.InstrPos(st), "the store is not directly under a comparison of the two hold times")
-				continue
-			}
-			g := b.Preds[0]
-			iff, ok := g.Instrs[len(g.Instrs)-1].(*ssa.If)
-			if !ok {
-				r.Bad(rule, fk, cons, c.P.InstrPos(st), "the store is not directly under a comparison of the two hold times")
-				continue
-			}
-			bo, ok := iff.Cond.(*ssa.BinOp)
-			if !ok {
-				r.Bad(rule, fk, cons, c.P.InstrPos(st), "guard is not a comparison")
-				continue
-			}
-			onTrue := g.Succs[0] == b
-			var smaller ssa.Value
-			switch bo.Op {
-			case token.GTR, token.GEQ: // X > Y : true ⇒ Y smaller
-				if onTrue {
-					smaller = bo.Y
-				} else {
-					smaller = bo.X
-				}
-			case token.LSS, token.LEQ: // X < Y : true ⇒ X smaller
-				if onTrue {
-					smaller = bo.X
-				} else {
-					smaller = bo.Y
-				}
-			}
-			if smaller != nil && sameSym(st.Val, smaller) {
-				r.Ok(rule, fk, cons, c.P.InstrPos(st), "stores the smaller operand of the guarding comparison")
-			} else {
-				r.Bad(rule, fk, cons, c.P.InstrPos(st), "the value stored is not the smaller operand of the guarding comparison: the session would run with max(local, remote) or an unrelated value")
-			}
-		}
-	}
-	if n != 2 {
-		r.Undec(rule, fk, "anchor:two stores of NegotiatedHoldTime", c.P.Pos(fn.Pos()), fmt.Sprintf("found %d", n))
-	}
-	// keepalive: a division by 3 of the negotiated hold time guarded by negotiated < configured
-	ok3 := false
-	for _, b := range fn.Blocks {
-		for _, in := range b.Instrs {
-			bo, ok := in.(*ssa.BinOp)
-			if !ok || bo.Op != token.QUO {
-				continue
-			}
-			k, ok := bo.Y.(*ssa.Const)
-			if !ok || k.Value == nil || k.Value.String() != "3" {
-				continue
-			}
-			if fieldLoadName(bo.X) != "NegotiatedHoldTime" {
-				continue
-			}
-			for _, g := range fn.Blocks {
-				iff, ok := g.Instrs[len(g.Instrs)-1].(*ssa.If)
+	// stateChange itself or a helper extracted from it
+	family := c.withPrivateHelpers(fn, 2)
+	for _, ff := range family {
+		for _, b := range ff.Blocks {
+			for _, in := range b.Instrs {
+				st, ok := in.(*ssa.Store)
 				if !ok {
 					continue
 				}
-				cmp, ok := iff.Cond.(*ssa.BinOp)
-				if ok && cmp.Op == token.LSS && fieldLoadName(cmp.X) == "NegotiatedHoldTime" && edgeDominates(g, 0, b) {
-					ok3 = true
+				fa, ok := st.Addr.(*ssa.FieldAddr)
+				if !ok || ir.FieldOf(fa).Name() != "NegotiatedHoldTime" {
+					continue
+				}
+				n++
+				cons := fmt.Sprintf("store NegotiatedHoldTime #%d", n)
+				if call, ok := st.Val.(*ssa.Call); ok {
+					if bi, ok := call.Call.Value.(*ssa.Builtin); ok && bi.Name() == "min" && len(call.Call.Args) == 2 {
+						r.Ok(rule, fk, cons, c.P.InstrPos(st), "stores min(a, b)")
+						continue
+					}
+				}
+				// the guarding branch
+				if len(b.Preds) != 1 {
+					r.Bad(rule, fk, cons, c.P.InstrPos(st), "the store is not directly under a comparison of the two hold times")
+					continue
+				}
+				g := b.Preds[0]
+				iff, ok := g.Instrs[len(g.Instrs)-1].(*ssa.If)
+				if !ok {
+					r.Bad(rule, fk, cons, c.P.InstrPos(st), "the store is not directly under a comparison of the two hold times")
+					continue
+				}
+				bo, ok := iff.Cond.(*ssa.BinOp)
+				if !ok {
+					r.Bad(rule, fk, cons, c.P.InstrPos(st), "guard is not a comparison")
+					continue
+				}
+				onTrue := g.Succs[0] == b
+				var smaller ssa.Value
+				switch bo.Op {
+				case token.GTR, token.GEQ: // X > Y : true ⇒ Y smaller
+					if onTrue {
+						smaller = bo.Y
+					} else {
+						smaller = bo.X
+					}
+				case token.LSS, token.LEQ: // X < Y : true ⇒ X smaller
+					if onTrue {
+						smaller = bo.X
+					} else {
+						smaller = bo.Y
+					}
+				}
+				if smaller != nil && sameSym(st.Val, smaller) {
+					r.Ok(rule, fk, cons, c.P.InstrPos(st), "stores the smaller operand of the guarding comparison")
+				} else {
+					r.Bad(rule, fk, cons, c.P.InstrPos(st), "the value stored is not the smaller operand of the guarding comparison: the session would run with max(local, remote) or an unrelated value")
+				}
+			}
+		}
+	}
+	if n < 1 {
+		r.Undec(rule, fk, "anchor:stores of NegotiatedHoldTime", c.P.Pos(fn.Pos()), fmt.Sprintf("found %d", n))
+	}
+	// keepalive: a division by 3 of the negotiated hold time guarded by negotiated < configured
+	ok3 := false
+	for _, ff := range family {
+		fn := ff
+		for _, b := range fn.Blocks {
+			for _, in := range b.Instrs {
+				bo, ok := in.(*ssa.BinOp)
+				if !ok || bo.Op != token.QUO {
+					continue
+				}
+				k, ok := bo.Y.(*ssa.Const)
+				if !ok || k.Value == nil || k.Value.String() != "3" {
+					continue
+				}
+				if fieldLoadName(bo.X) != "NegotiatedHoldTime" {
+					continue
+				}
+				for _, g := range fn.Blocks {
+					iff, ok := g.Instrs[len(g.Instrs)-1].(*ssa.If)
+					if !ok {
+						continue
+					}
+					cmp, ok := iff.Cond.(*ssa.BinOp)
+					if ok && cmp.Op == token.LSS && fieldLoadName(cmp.X) == "NegotiatedHoldTime" && edgeDominates(g, 0, b) {
+						ok3 = true
+					}
 				}
 			}
 		}
@@ -309,11 +322,24 @@ func (c *Ctx) ruleMarshallingOptions() {
 		return
 	}
 	n := 0
-	for _, fn := range c.P.FuncsIn("pkg/server") {
-		outer := ir.OuterKey(fn)
-		if !strings.Contains(outer, "recvMessageWithError") && !strings.Contains(outer, "sendMessageloop") {
+	// the two session loops, their closures and the helpers extracted from them
+	type sided struct {
+		fn   *ssa.Function
+		recv bool
+	}
+	var fns []sided
+	for _, k := range []string{"(*pkg/server.fsmHandler).recvMessageWithError", "(*pkg/server.fsmHandler).sendMessageloop"} {
+		root := c.P.Func(k)
+		if root == nil {
+			r.Undec(rule, k, "anchor", "-", "not found")
 			continue
 		}
+		for _, f := range c.withPrivateHelpers(root, 2) {
+			fns = append(fns, sided{f, strings.Contains(k, "recvMessageWithError")})
+		}
+	}
+	for _, sf := range fns {
+		fn := sf.fn
 		for _, b := range fn.Blocks {
 			for _, in := range b.Instrs {
 				al, ok := in.(*ssa.Alloc)
@@ -334,7 +360,7 @@ func (c *Ctx) ruleMarshallingOptions() {
 					}
 				}
 				fk := ir.FuncKey(fn)
-				recvSide := strings.Contains(outer, "recvMessageWithError")
+				recvSide := sf.recv
 				problems := []string{}
 				if got["AddPath"] != "familyMap.Load" {
 					problems = append(problems, "AddPath from "+got["AddPath"])
@@ -559,7 +585,7 @@ func (c *Ctx) ruleASNReaders() {
 				}
 				n++
 				fk := ir.OuterKey(fn)
-				if fk == "pkg/server.getASN" {
+				if c.familyKey(fn, []string{"pkg/server.getASN"}) != "" {
 					r.Ok(rule, fk, "reads BGPOpen.MyAS", c.P.InstrPos(fa), "the 4-octet aware helper")
 				} else {
 					r.Bad(rule, fk, "reads BGPOpen.MyAS", c.P.InstrPos(fa), "the raw 2-octet AS of an OPEN is used directly: for a 4-octet-AS peer it is AS_TRANS (23456), not the peer's AS")
